@@ -151,6 +151,31 @@ for _k in ("C03", "C04", "C05", "C09", "C10"):
 CHECKS["C01"]["text"] += " A chaos custom scheduler inside run_simulator adds arbitrary admissible packings."
 CHECKS["C02"]["text"] += " A chaos custom scheduler inside run_simulator adds arbitrary admissible packings."
 CHECKS["C06"]["text"] += " Includes the uncontended clause (one chain, ample resources, all schedulers) and runs under a chaos custom scheduler."
+_ADD = {
+    "C01": " Request histories on multi-parent DAGs (sinks behind up to 40 parents) with repeated start requests and check_transition polls; a parent that reads COMPLETED while its modelled work is outstanding is a violation of its own.",
+    "C02": " Suspension-heavy command streams; bookkeeping calls (record_arrival / record_finish) inside request histories; operators left RUNNING or SUSPENDING without a container.",
+    "C03": " Storm runs (1 400+ finished suspensions per pool), runs that straddle tick 100 000, zero and negative sizes among the injected faults.",
+    "C04": " RAM-overselling batches (with and without force_run) are injected by this check as well.",
+    "C05": " The same clauses with neighbours in the pool (crowd family); durations within 3e-9 .. 1e-4 of a whole tick; arbitrary tick rates.",
+    "C06": " Runs fed by the real trace reader, runs of 70 000 - 260 000 pipelines, small pools with fixed-memory operators (a failure despite enough memory is a violation).",
+    "C07": " Segment objects shared with an earlier simulation at another tick rate, identifier streams with shared prefixes/suffixes, adjusted_latency() among the compared statistics, seeds 0 / 2^32 / 2^63 against the default.",
+    "C08": " Runs fed by the real trace reader (sorted, appended, shuffled rows), parameters handed over as TOML files, float tick rates.",
+    "C09": " Storm runs; resumes that name the container they continue; two live containers answering to one id.",
+    "C10": " Storm runs (thousands of write-outs per pool).",
+    "C11": " Hair family: pools over capacity by 2^-30 .. 2^-40 GB in exact dyadic arithmetic.",
+    "C13": " Traces of 1 - 25 MiB, the command-line round trip (run vs gentrace + run -w through files), every replay of `tools sensitivity`, columns in any order.",
+    "C14": " Pipelines of 10 - 14 operators, parents declared in any order, repeated first rows, columns in any order.",
+    "C15": " A second generator built mid-run, probability triples with per-mille classes judged by exact tails.",
+    "C16": " 1 200 - 3 000 pipelines past long-lived victim pipelines; recurring job names in any class.",
+    "C17": " 1 200 - 3 000 pipelines past long-lived victim pipelines; 'free' is capacity minus what live containers hold; FIFO by pipeline object.",
+    "C18": " 1 200 - 3 000 pipelines past long-lived victim pipelines; container count judged at the decision; history-dependent violations replayed as sequences of simulations.",
+    "C19": " Recurring job names (identity = id + arrival tick), dependency-closed containers, own priorities and force_run, 560 - 1 500 suspensions in one pool, tick labels against the simulation's own tick.",
+    "C20": " Tools also run through main(); exponent notation, recurring job names, column orders, 52 000 - 266 000 pipelines through jitter.",
+}
+for _k, _v in _ADD.items():
+    CHECKS[_k]["text"] += _v
+for _k in CHECKS:
+    CHECKS[_k]["text"] += " Families and run counts as built: DESIGN 0.7; what each extension was made for: DESIGN 0.5 and SENSITIVITY.md."
 CHECKS["C12"]["text"] += " A dedicated pre-emption workload family produces thousands of suspensions per run, incl. one-tick write-outs and several finishing in one tick."
 CHECKS["C14"]["text"] += " A behavioural twin (same workload simulated directly and through the written file) ties the round trip to simulated behaviour."
 
